@@ -27,10 +27,11 @@ def ruleFormats : List (String × List String) := [
   ("fieldNotOutput", ["Expected output type for field \"%s\" on \"%s\" but got \"%s\""]),
   ("dupArg", ["Duplicate argument \"%s\" on \"%s\""]),
   ("argNotInput", ["Expected input type for argument \"%s\" on \"%s\" but got \"%s\""]),
-  ("resMissingParam", ["Missing resolver parameter for argument \"%s\" on \"%s\""]),
-  ("resPosOnly", ["Resolver parameter for argument \"%s\" on \"%s\" must not be positional only"]),
-  ("resNeedsDefault", ["Resolver parameter for optional argument \"%s\" on \"%s\" must have a default"]),
   ("resPositional", ["Resolver for \"%s\" must accept 3 positional parameters, found (%s)"]),
+  ("resCollides", ["Argument \"%s\" on \"%s\" collides with a positional resolver parameter"]),
+  ("resPosOnly", ["Resolver parameter for argument \"%s\" on \"%s\" must not be positional only"]),
+  ("resMissingParam", ["Missing resolver parameter for argument \"%s\" on \"%s\""]),
+  ("resNeedsDefault", ["Resolver parameter for optional argument \"%s\" on \"%s\" must have a default"]),
   ("resExtraRequired", ["Required resolver parameter \"%s\" on \"%s\" does not match any known argument or expected positional parameter"]),
   ("notInterface", ["Type \"%s\" can only implement interface types but got \"%s\""]),
   ("dupInterface", ["Type \"%s\" mut only implement interface \"%s\" once"]),
@@ -54,6 +55,15 @@ def replaceAtomic : Bool := true
 /-- a replaced / added / removed directive busts the caches (fix C13-T3b) -/
 def replaceDirectivesBust : Bool := true
 def specifiedDirectives : List String := ["include", "skip", "deprecated"]
+
+/-- shape of `SchemaValidator` (see `validator_config` in harness/corr/C13_extract.py) -/
+def cfgMaskTypeName : Bool := false
+def cfgMaskDuplicate : Bool := false
+def cfgMaskImplType : Bool := false
+def cfgPreciseResolver : Bool := true
+def cfgExtraArgRequired : Bool := true
+def cfgSubscriptionChecked : Bool := true
+def cfgCatchesTypeError : Bool := true
 
 /-- the proposed fix C13-S4-S6 is present in the working tree -/
 def fixS4S6 : Bool := true
